@@ -364,6 +364,7 @@ class PubHooks:
     def __init__(self):
         self.pubs = []
         self.sidx = None
+        self.served = []      # (server, shnums, wrote) of every test-and-set a storage server executed, in order
 
     def rec_of(self, p):
         for r in self.pubs:
@@ -394,6 +395,7 @@ class PubHooks:
 
         def publish(p, newdata):
             r = H.rec_of(p)
+            r["served_start"] = len(H.served)
             try:
                 d = o_publish(p, newdata)
             except Exception as e:
@@ -403,6 +405,7 @@ class PubHooks:
 
         def update(p, data, offset, blockhashes, version):
             r = H.rec_of(p)
+            r["served_start"] = len(H.served)
             try:
                 d = o_update(p, data, offset, blockhashes, version)
             except Exception as e:
@@ -461,6 +464,20 @@ def run_scenario(ctx, sc, acc):
         with grid.Runtime(seed=sc["sched"], policy=sc["policy"]) as rt:
             g = mc.make_grid("c47", rt, sc["servers"], 1, sc["k"], sc["n"])
             H.sidx = mc.server_number(g)
+            for i_, w_ in g.wrappers.items():
+                # record, at the server, the verdict of every test-and-set it executes (below the write proxies)
+                class Served:
+                    def __init__(self, original, i):
+                        self._o, self._i = original, i
+
+                    def __getattr__(self, name):
+                        return getattr(self._o, name)
+
+                    def remote_slot_testv_and_readv_and_writev(self, si, secrets, tw, rv):
+                        res = self._o.remote_slot_testv_and_readv_and_writev(si, secrets, tw, rv)
+                        H.served.append((self._i, sorted(tw), bool(res[0])))
+                        return res
+                w_.original = Served(w_.original, i_)
             try:
                 c = g.clients[0]
                 node = None
@@ -541,8 +558,21 @@ def run_scenario(ctx, sc, acc):
                         outcome = mc.exc_name(e)
                     set_faults({})
                     ctx.count("grid-op:" + outcome)
-                    for r in H.pubs[npubs:]:
+                    step_pubs = H.pubs[npubs:]
+                    for j_, r in enumerate(step_pubs):
                         p = r["p"]
+                        # the statement: success requires that no unexpected version was encountered.  A server that
+                        # refuses a test-and-set (wrote=False) has met a version the publisher did not expect, however
+                        # the layers between server and Publish report it.
+                        lo_ = r.get("served_start", len(H.served))
+                        hi_ = step_pubs[j_ + 1].get("served_start", len(H.served)) if j_ + 1 < len(step_pubs) else len(H.served)
+                        refused_ = [x for x in H.served[lo_:hi_] if not x[2]]
+                        if refused_:
+                            ctx.count("grid-publish-with-refused-test-and-set:" + str(r["result"]))
+                            if r["result"] == "success":
+                                ctx.violation("publish reported success although server(s) %r refused its test-and-set "
+                                              "(wrote=False)" % sorted(set(x[0] for x in refused_)), case,
+                                              "success-despite-refused-test-and-set-at-server", detail={"step": idx})
                         seq, rh = getattr(p, "_new_seqnum", None), getattr(p, "root_hash", None)
                         if r["result"] is None:
                             r["result"] = "no-result"
